@@ -123,7 +123,10 @@ def run_check(pid, harnesses, tier="quick", seed=0, budget=None, level="proof", 
                 n_known_obl += sum(1 for o in rec["obligations"] if o["name"] == f["name"] and o["status"] != "unsat")
                 continue
             in_ledger = f["name"] in led
-            if f.get("replayed"):
+            if f.get("kind") == "proof-side-condition":
+                # a side condition of the proof method (not a clause of the property): its failure means the argument no longer applies
+                undecided.append((hid, f["name"], "side condition of the proof no longer holds: " + str(f.get("meta", ""))[:160]))
+            elif f.get("replayed"):
                 violations.append((hid, f, "replayed"))
             elif f["status"] == "sat" and in_ledger:
                 violations.append((hid, f, "no-failing-input-found"))
